@@ -115,7 +115,7 @@ pub fn make_cut_under_corpus(seed: u64, n: usize, native: bool) -> Vec<Value> {
 /// join over lists with bound tails, rule-built lists, bound-variable elements).
 pub fn gen_list_builtin_program(s: &mut dyn Src) -> Option<Program> {
     use crate::props::builtins::BAspect;
-    let aspect = match s.draw(6) { 0 | 1 => BAspect::Append, 2 | 3 => BAspect::Misc, 4 => BAspect::Compare, _ => BAspect::FuncSides };
+    let aspect = match s.draw(6) { 0 | 1 => BAspect::Append, 2 | 3 => BAspect::Misc, 4 => BAspect::Compare, _ => if chance(s, 1, 2) { BAspect::FuncSides } else { BAspect::Arith } };
     crate::props::builtins::scenario_programs(aspect, s).into_iter().next()
 }
 
@@ -133,10 +133,15 @@ pub fn make_list_builtin_corpus(seed: u64, n: usize, native: bool) -> Vec<Value>
         let text = format!("{}", p);
         let walks = text.contains("| $") || text.contains("copy(");
         let compares = text.contains("less_than") || text.contains("greater_than") || text.contains("equal(") || text.contains(" = add(") || text.contains("multiply(") ;
-        if !(walks || compares) && o.len() % 4 != 0 { return Ok(()); }
-        // one entry in six compares an operand that is aliased to a still unbound body-local variable
+        // one entry in six compares an operand that is aliased to a still unbound body-local variable,
+        // and one in six matches a functor against a `prefix*` pattern that may be longer than the functor
         let aliased = text.contains("$La");
-        if o.len() % 6 == 1 && !aliased { return Ok(()); }
+        let long_prefix = text.contains("functor(") && ["noun_phrase*", "noun_*", "verbal*", "npx*"].iter().any(|p| text.contains(p));
+        match o.len() % 6 {
+            1 => if !aliased { return Ok(()); },
+            3 => if !long_prefix { return Ok(()); },
+            _ => if !(walks || compares) && o.len() % 4 != 0 { return Ok(()); },
+        }
         let r = solve_program(&p, Limits { steps: 400, depth: 60, answers: 5 });
         if r.status != Status::Finished { return Ok(()); }
         let answers = if native {
